@@ -114,15 +114,15 @@ func (s *crossState) request(cl, q int) *dns.Msg {
 }
 
 type crossState struct {
-	nonce   string
-	c       Cross
-	mu      sync.Mutex
-	seen    map[string]int
-	bad     []string
-	alien   atomic.Int32
-	calls   atomic.Int32
-	active  atomic.Int32
-	maxAct  atomic.Int32
+	nonce  string
+	c      Cross
+	mu     sync.Mutex
+	seen   map[string]int
+	bad    []string
+	alien  atomic.Int32
+	calls  atomic.Int32
+	active atomic.Int32
+	maxAct atomic.Int32
 }
 
 func (s *crossState) fail(format string, a ...any) {
